@@ -36,6 +36,7 @@ CALENDARS = {
     'dd':     ('2021-01-04 00:00', '1D', 'd', None),          # dt = 1 tick (a day)
     'spring': ('2021-03-27 00:00', '1h', 'd', 'CET'),         # dt = 24, 23, 24, ...
     'fall':   ('2021-10-30 00:00', '1h', 'd', 'CET'),         # dt = 24, 25, 24, ...
+    'spring_late': ('2021-03-26 00:00', '1h', 'd', 'CET'),    # dt = 24, 24, 23, 24, ... (the short day is the FIRST day of the second two-day step)
     'y':      ('2021-01-01 00:00', '365D', '365d', None),     # dt = 1 tick = 365 days (exact discounting with wacc = 1)
     'q15':    ('2021-01-04 00:00', '15min', '15min', None),
     'month':  ('2021-01-01 00:00', '1D', 'MS', None),         # dt = 31, 28, 31, 30 ...
